@@ -10,6 +10,7 @@ ASSUMED library contracts (the crux):
 """
 import z3
 from .common import *
+from pyvc.values import is_v
 
 PROP = 'C05'
 BoolS = z3.BoolSort()
@@ -28,6 +29,7 @@ def c05_registry():
     @model
     def m_allclose(ip, args, kw):
         a, b = args[0], args[1]
+        a, b = [x if is_v(x) else uf('scalar_as_array', to_real(x)) for x in (a, b)]
         r = AllClose(a, b)
         ip.add_pc(z3.Implies(a == b, r))
         return r
@@ -120,6 +122,10 @@ def post_bath(ip, ctx, out):
     # the diagonal of a Hermitian matrix is real (axiom instance), eigenvalues of eigh are real
     ip.add_pc(z3.Implies(herm, IsReal(A)) if False else z3.BoolVal(True))
     diag_branch = D == A
+    if D.eq(A):
+        # the shortcut "the operator is already diagonal" was taken: its condition must be that the operator equals the
+        # diagonal matrix of its own diagonal (anything weaker lets a non-diagonal operator through undiagonalised)
+        ip.prove('bath/diagonal-shortcut-only-for-diagonal-operators', AllClose(uf('lib_numpy_diag', uf('meth_diagonal', A)), A))
     ip.prove('bath/real-spectrum', z3.Or(IsReal(D), diag_branch))
     ip.prove('bath/reconstruct', z3.Or(AllClose(A, MatMul(MatMul(U, D), TrT(Conj(U)))), diag_branch))
 
